@@ -323,3 +323,73 @@ impl<'a> From<FontData<'a>> for std::borrow::Cow<'a, [u8]> {
         src.bytes.into()
     }
 }
+
+/// Verification-only access to the crate-private [`Cursor`] primitives.
+///
+/// Each method forwards to exactly one `Cursor` method; nothing here is used by the crate itself.
+#[cfg(googlefonts_fontations_verif)]
+pub mod verif_hooks {
+    use super::*;
+
+    /// A [`Cursor`] whose crate-private operations are callable from outside the crate.
+    #[derive(Debug, Default, Clone, Copy)]
+    pub struct VerifCursor<'a>(pub Cursor<'a>);
+
+    impl<'a> VerifCursor<'a> {
+        /// `FontData::cursor`
+        pub fn new(data: FontData<'a>) -> Self {
+            VerifCursor(data.cursor())
+        }
+        /// the raw (saturating) position, without the bounds check of `position`
+        pub fn raw_pos(&self) -> usize {
+            self.0.pos
+        }
+        /// `Cursor::advance::<T>`
+        pub fn advance<T: Scalar>(&mut self) {
+            self.0.advance::<T>()
+        }
+        /// `Cursor::advance_by`
+        pub fn advance_by(&mut self, n_bytes: usize) {
+            self.0.advance_by(n_bytes)
+        }
+        /// `Cursor::read_u32_var`
+        pub fn read_u32_var(&mut self) -> Result<u32, ReadError> {
+            self.0.read_u32_var()
+        }
+        /// `Cursor::read::<T>`
+        pub fn read<T: Scalar>(&mut self) -> Result<T, ReadError> {
+            self.0.read::<T>()
+        }
+        /// `Cursor::read_be::<T>`
+        pub fn read_be<T: Scalar>(&mut self) -> Result<BigEndian<T>, ReadError> {
+            self.0.read_be::<T>()
+        }
+        /// `Cursor::read_array::<T>`
+        pub fn read_array<T: AnyBitPattern + FixedSize>(
+            &mut self,
+            n_elem: usize,
+        ) -> Result<&'a [T], ReadError> {
+            self.0.read_array::<T>(n_elem)
+        }
+        /// `Cursor::position`
+        pub fn position(&self) -> Result<usize, ReadError> {
+            self.0.position()
+        }
+        /// `Cursor::remaining_bytes`
+        pub fn remaining_bytes(&self) -> usize {
+            self.0.remaining_bytes()
+        }
+        /// `Cursor::remaining`
+        pub fn remaining(self) -> Option<FontData<'a>> {
+            self.0.remaining()
+        }
+        /// `Cursor::is_empty`
+        pub fn is_empty(&self) -> bool {
+            self.0.is_empty()
+        }
+        /// `Cursor::finish` (only whether the final bounds check passed)
+        pub fn finish(self) -> Result<(), ReadError> {
+            self.0.finish(()).map(|_| ())
+        }
+    }
+}
